@@ -460,3 +460,77 @@ func initStringStubs() {
 }
 
 var _ = types.Typ
+
+// ---- sync.Map (sequential mode): an association list with concrete key equality, backed by the engine's map model ----
+
+func (e *Exec) syncMapRef(st *State, p Ptr) MapRef {
+	if e.conc != nil {
+		fail("sync.Map in concurrent mode unsupported")
+	}
+	key := fmt.Sprintf("syncmap:%d%s", p.Obj, p.Path)
+	if st.Ghost == nil {
+		st.Ghost = map[string]Value{}
+	}
+	if m, ok := st.Ghost[key].(MapRef); ok {
+		return m
+	}
+	m := MapRef{e.newObj(st, &MapData{})}
+	st.Ghost[key] = m
+	return m
+}
+
+func (e *Exec) syncMapFind(st *State, m MapRef, key Value) (int, bool) {
+	md := e.objContent(st, m.Obj).(*MapData)
+	for i := range md.Keys {
+		c := e.eqVal(md.Keys[i], key)
+		if c.IsTrue() {
+			return i, true
+		}
+		if !c.IsFalse() {
+			fail("sync.Map: symbolic key comparison")
+		}
+	}
+	return -1, false
+}
+
+func initSyncMapStubs() {
+	stubTable["(*sync.Map).Load"] = func(e *Exec, st *State, fn *Func, args []Value, site string) []Outcome {
+		m := e.syncMapRef(st, args[0].(Ptr))
+		if i, ok := e.syncMapFind(st, m, args[1]); ok {
+			return ret(st, e.objContent(st, m.Obj).(*MapData).Vals[i], True)
+		}
+		return ret(st, Iface{}, False)
+	}
+	stubTable["(*sync.Map).Store"] = func(e *Exec, st *State, fn *Func, args []Value, site string) []Outcome {
+		e.mapSet(st, e.syncMapRef(st, args[0].(Ptr)), args[1], args[2])
+		return ret(st)
+	}
+	stubTable["(*sync.Map).LoadOrStore"] = func(e *Exec, st *State, fn *Func, args []Value, site string) []Outcome {
+		m := e.syncMapRef(st, args[0].(Ptr))
+		if i, ok := e.syncMapFind(st, m, args[1]); ok {
+			return ret(st, e.objContent(st, m.Obj).(*MapData).Vals[i], True)
+		}
+		e.mapSet(st, m, args[1], args[2])
+		return ret(st, args[2], False)
+	}
+	stubTable["(*sync.Map).Delete"] = func(e *Exec, st *State, fn *Func, args []Value, site string) []Outcome {
+		m := e.syncMapRef(st, args[0].(Ptr))
+		if i, ok := e.syncMapFind(st, m, args[1]); ok {
+			md := e.objContent(st, m.Obj).(*MapData)
+			nd := &MapData{}
+			for j := range md.Keys {
+				if j != i {
+					nd.Keys = append(nd.Keys, md.Keys[j])
+					nd.Vals = append(nd.Vals, md.Vals[j])
+				}
+			}
+			st.Heap[m.Obj] = nd
+		}
+		return ret(st)
+	}
+	stubTable["(*sync.Map).Clear"] = func(e *Exec, st *State, fn *Func, args []Value, site string) []Outcome {
+		m := e.syncMapRef(st, args[0].(Ptr))
+		st.Heap[m.Obj] = &MapData{}
+		return ret(st)
+	}
+}
